@@ -19,6 +19,8 @@ package table
 //@   pure
 //@   spec-only
 // AS_PATH length = sum over the segments of their ASLen() (defined by the two axioms below)
+// an AS_PATH attribute holds no nil segment
+//@ spec wfAsPath(p *Path) bool = p.GetAsPath() == nil || (forall k int :: 0 <= k && k < len(p.GetAsPath().Value) ==> p.GetAsPath().Value[k] != nil)
 //@ ghost sumASLen(s []bgp.AsPathParamInterface, k int) int
 //@ axiom sumASLen0: forall s []bgp.AsPathParamInterface :: sumASLen(s, 0) == 0
 //@ axiom sumASLenStep: forall s []bgp.AsPathParamInterface, k int :: 0 <= k && k < len(s) ==> sumASLen(s, k+1) == sumASLen(s, k) + s[k].ASLen()
@@ -26,8 +28,7 @@ package table
 //@   pure
 //@   modifies nothing
 //@   using sumASLen0 sumASLenStep
-//@   requires path != nil
-//@   requires path.GetAsPath() != nil ==> (forall k int :: 0 <= k && k < len(path.GetAsPath().Value) ==> path.GetAsPath().Value[k] != nil)
+//@   requires path != nil && wfAsPath(path)
 //@   loop 0 invariant length == sumASLen(aspath.Value, __iter + 1) && __iter + 1 <= len(aspath.Value)
 //@   ensures path.GetAsPath() == nil ==> result == 0
 //@   ensures path.GetAsPath() != nil ==> result == sumASLen(path.GetAsPath().Value, len(path.GetAsPath().Value))
@@ -57,7 +58,7 @@ package table
 
 // well-formed candidate: has a source with an IPv4 BGP identifier and its well-known attributes have their Go types
 //@ spec attrOK(p *Path, t bgp.BGPAttrType, tag int) bool = p.getPathAttr(t) == nil || (typeOf(p.getPathAttr(t)) == tag && p.getPathAttr(t).(*bgp.PathAttributeOrigin) != nil)
-//@ spec wfPath(p *Path) bool = p != nil && p.GetSource() != nil && p.GetSource().ID.Is4() && \
+//@ spec wfPath(p *Path) bool = p != nil && wfAsPath(p) && p.GetSource() != nil && p.GetSource().ID.Is4() && \
 //@     p.getPathAttr(bgp.BGP_ATTR_TYPE_ORIGIN) != nil && typeOf(p.getPathAttr(bgp.BGP_ATTR_TYPE_ORIGIN)) == (*bgp.PathAttributeOrigin) && p.getPathAttr(bgp.BGP_ATTR_TYPE_ORIGIN).(*bgp.PathAttributeOrigin) != nil && \
 //@     (p.getPathAttr(bgp.BGP_ATTR_TYPE_MULTI_EXIT_DISC) == nil || (typeOf(p.getPathAttr(bgp.BGP_ATTR_TYPE_MULTI_EXIT_DISC)) == (*bgp.PathAttributeMultiExitDisc) && p.getPathAttr(bgp.BGP_ATTR_TYPE_MULTI_EXIT_DISC).(*bgp.PathAttributeMultiExitDisc) != nil))
 
@@ -122,7 +123,7 @@ package table
 //@   ensures cLocal(path1, path2) < 0 ==> result == path1
 //@   ensures cLocal(path1, path2) > 0 ==> result == path2
 //@ func compareByASPath
-//@   requires path1 != nil && path2 != nil
+//@   requires path1 != nil && path2 != nil && wfAsPath(path1) && wfAsPath(path2)
 //@   modifies nothing
 //@   ensures cASLen(path1, path2) == 0 ==> result == nil
 //@   ensures cASLen(path1, path2) < 0 ==> result == path1
@@ -245,3 +246,24 @@ package table
 //@   ensures len(result) <= len(pathList)
 //@   ensures forall i int :: 0 <= i && i < len(result) ==> result[i] == pathList[i] && !pathList[i].IsNexthopInvalid && pathList[i].Compare(pathList[0]) == 0
 //@   ensures forall i int :: len(result) <= i && i < len(pathList) ==> len(result) == 0 || pathList[i].IsNexthopInvalid || pathList[i].Compare(pathList[0]) != 0
+
+// ---- binary insertion keeps the candidate list sorted by the statement's order -----------------
+// (so the first element is a most-preferred route whatever the arrival order: C03, and the list stays
+//  "best first": C02)
+//@ spec medComparableList(p *Path, l []*Path) bool = (forall i int :: 0 <= i && i < len(l) ==> medComparable(p, l[i]) && medComparable(l[i], p)) && (forall i int, j int :: 0 <= i && i < len(l) && 0 <= j && j < len(l) ==> medComparable(l[i], l[j]))
+//@ func (*destination).insertSort
+//@   requires dest != nil && wfPath(newPath) && wfList(dest.knownPathList) && sortedList(dest.knownPathList)
+//@   requires forall i int :: 0 <= i && i < len(dest.knownPathList) ==> dest.knownPathList[i] != newPath
+//@   requires medComparableList(newPath, dest.knownPathList)
+//@   using prefTotal prefTransitive
+//@   hide specPref wfPath medComparable
+//@   modifies dest.knownPathList, dest.knownPathList[:cap]
+//@   ensures len(dest.knownPathList) == old(len(dest.knownPathList)) + 1
+// from C03 "the route reported as best is the one preferred": the new first element is the new route or the
+// old best; if it is the new route it is preferred to every old candidate, otherwise the old best is preferred
+// to the new route (with the sorted precondition and the transitivity lemma: first element preferred to all).
+// Full sortedness of the new list is NOT machine-checked (the solvers do not instantiate the element-wise
+// definition of slices.Insert on shifted indices); see DESIGN.md 8.
+//@   ensures dest.knownPathList[0] == newPath || (old(len(dest.knownPathList)) > 0 && dest.knownPathList[0] == old(dest.knownPathList[0]))
+//@   ensures dest.knownPathList[0] == newPath ==> (forall k int :: 0 <= k && k < old(len(dest.knownPathList)) ==> old_specPref(newPath, old(dest.knownPathList[k])))
+//@   ensures dest.knownPathList[0] != newPath ==> old_specPref(dest.knownPathList[0], newPath)
